@@ -66,6 +66,12 @@ Definition s_pair (c : tcase) : bool :=
 Definition s_agrees (c : tcase) : bool :=
   c_ok c && s_single (c_a c) (c_oa c) && s_single (c_b c) (c_ob c) && s_pair c.
 
+(* the same, not looking at the Export() bytes (used to recognise the one open Export finding narrowly) *)
+Definition s_single_noexp (e : expr) (o : sobs) : bool :=
+  list_eqb (o_units o) (seval e) && o_lit o.
+Definition s_agrees_noexp (c : tcase) : bool :=
+  c_ok c && s_single_noexp (c_a c) (c_oa c) && s_single_noexp (c_b c) (c_ob c) && s_pair c.
+
 (* ---- against I ---- *)
 Definition i_lit_ok (x : jsstr) : bool :=
   let l := from_utf16 (payload (devirt x)) in
@@ -97,6 +103,7 @@ Fixpoint mismatch_from (f : tcase -> bool) (i : N) (cs : list tcase) : list N :=
 
 Definition mismatch_ids := mismatch_from s_agrees 0.
 
-(* what the model says: (S value of a, S value of b, S export of a, S export of b, does I reproduce the observation) *)
+(* what the model says: (S value of a, S value of b, S export of a, S export of b,
+   does S agree apart from the Export() bytes, does I reproduce the observation) *)
 Definition expected (c : tcase) :=
-  (seval (c_a c), seval (c_b c), s_export (seval (c_a c)), s_export (seval (c_b c)), i_agrees c).
+  (seval (c_a c), seval (c_b c), s_export (seval (c_a c)), s_export (seval (c_b c)), s_agrees_noexp c, i_agrees c).
